@@ -1,5 +1,52 @@
 import Sigc.Model
-import Sigc.Spec
-/-! property theorems for C14 (being written) -/
+import Sigc.Lemmas.Basic
+import Sigc.Lemmas.Frames
+/-!
+# C14 — signal objects are shared handles; the slot list lives as long as any handle
+(first theorems; the complete family is being proved in Sigc/Lemmas/Step*.lean)
+-/
 namespace Sigc.C14
+open Sigc.Model
+
+/-- `ensureImpl` (`signal_base::impl()`): afterwards the handle has a list, which exists -/
+theorem ensureImpl_spec (s s' : St) (g i : Nat) (h : ensureImpl s g = some (s', i)) :
+    (∃ hd, aget s'.G g = some hd ∧ hd.impl = some i) ∧
+    (∀ hd, aget s.G g = some hd → hd.impl = some i → s' = s) := by
+  unfold ensureImpl at h
+  cases hg : aget s.G g with
+  | none => simp [hg] at h
+  | some hd =>
+    simp only [hg] at h
+    cases hi : hd.impl with
+    | some j =>
+      simp [hi] at h
+      obtain ⟨rfl, rfl⟩ := h
+      exact ⟨⟨hd, hg, hi⟩, fun _ _ _ => rfl⟩
+    | none =>
+      simp [hi, St.fresh] at h
+      obtain ⟨rfl, rfl⟩ := h
+      refine ⟨⟨{ hd with impl := some s.next }, by simp, rfl⟩, ?_⟩
+      intro hd' h1 h2
+      cases h1
+      rw [hi] at h2
+      cases h2
+
+/-- move construction of a plain `sigc::signal` transfers the list: the new object has the source's
+    list, the source has none (and is reusable) -/
+theorem mvG_transfers (s s' : St) (r : String) (j i : Nat) (h0 : Handle)
+    (hi : aget s.G i = some h0) (hj : aget s.G j = none) (hacc : h0.fl.isAcc = false) (hji : j ≠ i)
+    (h : stepSimple s (.mvG j i) = some (s', r)) :
+    r = "ok" ∧ (∃ hd, aget s'.G j = some hd ∧ hd.impl = h0.impl ∧ hd.fl = h0.fl) ∧
+    (∃ hs, aget s'.G i = some hs ∧ hs.impl = none) := by
+  simp only [stepSimple, hi, hj, hacc] at h
+  simp [St.fresh] at h
+  obtain ⟨rfl, rfl⟩ := h
+  refine ⟨rfl, ?_, ?_⟩
+  · by_cases ht : h0.fl.isTrackable = true <;> simp [ht]
+  · by_cases ht : h0.fl.isTrackable = true <;> simp [ht, aget_aset_other _ _ _ _ (Ne.symm hji)]
+
+example : ∃ s' r, stepSimple { G := [(0, { obj := 1, fl := .I, impl := some 5, trk := 2, lvl := 0 })], next := 9 } (.mvG 1 0) = some (s', r)
+    ∧ (aget s'.G 0).map (·.impl) = some none ∧ (aget s'.G 1).map (·.impl) = some (some 5) := by
+  refine ⟨_, _, rfl, ?_, ?_⟩ <;> simp [aget, aset, St.fresh, Flavour.isTrackable]
+
 end Sigc.C14
